@@ -146,6 +146,8 @@ def fakes(S, on_event=None):
             return True
 
         def release(self):
+            if getattr(S, "yield_in_section", False):
+                S.yield_()  # a thread may be pre-empted while it still holds the mutex (others see it busy)
             ev("unlock", S.cur, self)
             self.owner = None
             S.yield_()
